@@ -125,13 +125,13 @@ class Executor(StmtMixin, ExprMixin, CallMixin, LibMixin):
     def feasible(self, path):
         self.feas_calls += 1
         s = z3.Solver()
-        s.set("timeout", 2000)
         for c in path.pc:
             if not is_quantified(c):
                 s.add(c)
         for c in self.class_axioms(path):
             s.add(c)
-        return s.check() != z3.unsat
+        from .solve import cpu_check
+        return cpu_check(s, 2000) != z3.unsat   # CPU time, not wall-clock: the set of explored paths must not depend on the load
 
     # ------------------------------------------------------------------ unit verification
     def number_loops(self, fnode):
@@ -239,7 +239,13 @@ class Executor(StmtMixin, ExprMixin, CallMixin, LibMixin):
                     pre = Ctx(self, p, args).old
                     self.oblige(p, f"must-raise:{exc}", sv.Not(cond(pre)), fi.node, assume=False)
                 if c.ensures is not None:
-                    post = c.ensures(ctx, val)
+                    try:
+                        post = c.ensures(ctx, val)
+                    except (AttributeError, TypeError, KeyError, IndexError) as e:
+                        # the result (or the final state) no longer has the shape the postcondition talks about
+                        # (e.g. an optional value where a value is promised): the postcondition cannot hold as stated
+                        post = {"the result has the shape the contract describes": z3.BoolVal(False)}
+                        self.assumptions.add(f"postcondition of {c.name} not applicable to the returned value: {type(e).__name__}: {e}")
                     if isinstance(post, dict):
                         for cname, cform in post.items():
                             self.oblige(p, f"post[{cname}]", cform, fi.node, assume=False)
